@@ -40,6 +40,7 @@ def judge(ctx, fns, host_spelling, host, exp, tag, wit):
             ctx.viol("C08:exception:" + ctx.exc(name, e), wit)
             continue
         ctx.ev()
+        ctx.out((tag, name, host_spelling, got))
         if isinstance(got, list):
             got = tuple(got)
         if got != want:
@@ -270,6 +271,7 @@ def run(ctx):
                 if k == 2:
                     ctx.sample("synthetic-2-rules", {"rules": list(rs)})
             ctx.exhaustive_space("synthetic rule sets of %d rules (of 87) x 120 hostnames" % k, n_here)
+        ctx.freeze_outputs()
         n = 0
         lim = 300 if ctx.tier == "quick" else 10 ** 7
         while ctx.time_left() and n < lim:
